@@ -49,9 +49,7 @@ fn dump_fn<'tcx>(cx: &Cx<'tcx>, ldid: LocalDefId, kind: DefKind) -> J {
             if of_trait {
                 let tr = tcx.impl_trait_ref(parent).instantiate_identity().skip_norm_wip();
                 o.push(("impl_trait", J::s(cx.path(tr.def_id))));
-                o.push(("impl_trait_full", J::s(cx.fix(rustc_middle::ty::print::with_no_trimmed_paths!(
-                    rustc_middle::ty::print::with_crate_prefix!(format!("{}", tr.print_only_trait_path()))
-                )))));
+                o.push(("impl_trait_full", J::s(cx.pr(|| format!("{}", tr.print_only_trait_path())))));
             }
         } else if matches!(tcx.def_kind(parent), DefKind::Trait) {
             o.push(("in_trait", J::s(cx.path(parent))));
@@ -150,9 +148,7 @@ fn const_val<'tcx>(cx: &Cx<'tcx>, owner: Option<LocalDefId>, c: &ConstOperand<'t
         return J::Arr(vec![
             J::s("fn"),
             J::s(cx.path(*did)),
-            J::Arr(gargs.iter().map(|a| J::s(cx.fix(rustc_middle::ty::print::with_no_trimmed_paths!(
-                rustc_middle::ty::print::with_crate_prefix!(format!("{a}"))
-            )))).collect()),
+            J::Arr(gargs.iter().map(|a| J::s(cx.pr(|| format!("{a}")))).collect()),
         ]);
     }
     let mut val = J::Null;
@@ -396,9 +392,7 @@ fn term<'tcx>(cx: &Cx<'tcx>, ldid: LocalDefId, body: &Body<'tcx>, t: &Terminator
                 o.push(("fn", J::s(cx.path(callee))));
                 o.push((
                     "gargs",
-                    J::Arr(gargs.iter().map(|a| J::s(cx.fix(rustc_middle::ty::print::with_no_trimmed_paths!(
-                        rustc_middle::ty::print::with_crate_prefix!(format!("{a}"))
-                    )))).collect()),
+                    J::Arr(gargs.iter().map(|a| J::s(cx.pr(|| format!("{a}")))).collect()),
                 ));
                 let env = ty::TypingEnv::post_analysis(tcx, ldid);
                 let gargs2 = tcx.try_normalize_erasing_regions(env, rustc_middle::ty::Unnormalized::new_wip(gargs)).unwrap_or(gargs);
